@@ -482,13 +482,18 @@ def run_workers_case(dd, case, acc):
         mrepl[p] = model.DELETE if r is None else r
     expected = model.subst_paths(trees, mrepl)
     cur = base
+    if acc.violations.get('workers/no-answer', {}).get('count', 0) >= 2:
+        acc.skip('workers: no-answer bucket saturated')
+        return False, ['ids-workers']
     for i, substs in enumerate(steps):
         with mp.Pool(1) as pool:
             res = pool.apply_async(_worker_apply, ((cur, substs, []), ))
             try:
-                cur = res.get(timeout=60)
+                cur = res.get(timeout=20)
             except multiprocessing.TimeoutError:
-                acc.violation('workers/hang', f'worker {i} did not answer within 60 s', case)
+                # (a worker that cannot even unpickle its task dies and never answers)
+                acc.violation('workers/no-answer', f'worker {i} did not answer within 20 s: the task (input + simplification) '
+                              f'did not survive the way to the worker, or the application hangs', case)
                 return False, ['ids-workers']
         if isinstance(cur, str):
             acc.violation('workers/' + cur.split(':')[0].replace(' ', '-'), f'worker {i}: {cur}', case)
